@@ -4,10 +4,10 @@ package checks
 
 import (
 	"fmt"
-	"regexp"
 	"strings"
 	"testing"
 
+	pkgerrors "github.com/openfga/language/pkg/go/errors"
 	"github.com/openfga/language/pkg/go/transformer"
 	"github.com/openfga/language/pkg/go/utils"
 	"google.golang.org/protobuf/encoding/protojson"
@@ -31,7 +31,6 @@ const c02Rule = "rapid-generated protobuf models of the json profile: arbitrary 
 	"has a direct assignment that is not already first; distinct by model content. Bounded exhaustive part: every rewrite tree over the leaves {this, computed, tuple-to-userset} with " +
 	"operator nesting depth <= 2 (unions/intersections of 1-2 operands, 1-3 at the innermost level, differences) as the definition of one relation."
 
-var c02ReErr = regexp.MustCompile(`^the '(.*)' relation definition under the '(.*)' type is not supported by the OpenFGA DSL syntax yet$`)
 
 func c02Check(in c02Input) string {
 	m := in.Model
@@ -57,14 +56,27 @@ func c02Check(in c02Input) string {
 		if errA == nil {
 			return fmt.Sprintf("conversion succeeded although %d relation(s) are not DSL-expressible; produced:\n%s", len(bad), dslA)
 		}
+		// the expected error is built with the library's own constructor for each violating relation, so that a
+		// reworded message is not mistaken for a different error
 		for _, e := range []error{errA, errB} {
-			mm := c02ReErr.FindStringSubmatch(e.Error())
-			if mm == nil {
-				return "inexpressible model rejected with an error that is not the unsupported-nesting error: " + describe(e)
+			ok := false
+			for k := range bad {
+				tr := strings.SplitN(k, "\x00", 2)
+				if e.Error() == pkgerrors.UnsupportedDSLNestingError(tr[0], tr[1]).Error() {
+					ok = true
+				}
 			}
-			if !bad[mm[2]+"\x00"+mm[1]] {
-				return fmt.Sprintf("unsupported-nesting error blames %s#%s, which is expressible", mm[2], mm[1])
+			if ok {
+				continue
 			}
+			for _, td := range m.Types {
+				for _, r := range td.Rels {
+					if e.Error() == pkgerrors.UnsupportedDSLNestingError(td.Name, r.Name).Error() {
+						return fmt.Sprintf("unsupported-nesting error blames %s#%s, which is expressible", td.Name, r.Name)
+					}
+				}
+			}
+			return "inexpressible model rejected with an error that is not the unsupported-nesting error: " + describe(e)
 		}
 		if dslA != "" || dslBp != nil {
 			return "DSL text returned together with an error"
